@@ -136,7 +136,7 @@ def parse_concrete(lines, **settings):
             pass
 
 
-def project(files, correlate=True, post=None, post_modules=(), file_order="sorted", sym_sets=(), more_patches=None, **settings):
+def project(files, correlate=True, post=None, post_modules=(), file_order="sorted", sym_sets=(), more_patches=None, physical=(), **settings):
     """Run the real Project (all files parsed by the real parser, reader stubbed) and correlate().
     files: {basename: [logical lines (str or CV)]}.  `post(project)` runs inside the same patched context
     (same fresh NameSelector, same patches; `post_modules` are patched in addition) and its result is returned."""
@@ -150,8 +150,22 @@ def project(files, correlate=True, post=None, post_modules=(), file_order="sorte
         for name in files:
             with open(os.path.join(d, name), "w") as f:
                 f.write("! symbolic program\n")
-        extra = {(sf, "FortranReader"): (lambda path, *a, **k: FakeReader(files[os.path.basename(path)]))}
+        # files named in `physical` hold PHYSICAL source lines and go through the real FortranReader (stream stubbed)
+        import ford.reader as rd
+        from fv import readerh
+
+        def make_reader(path, docmark="!", predocmark="", docmark_alt="", predocmark_alt="", *a, **k):
+            base = os.path.basename(path)
+            if base in physical:
+                return readerh.mk_reader([l + "\n" for l in files[base]], docmark=docmark, predocmark=predocmark,
+                                         docmark_alt=docmark_alt, predocmark_alt=predocmark_alt)
+            return FakeReader(files[base])
+
+        extra = {(sf, "FortranReader"): make_reader}
         extra.update(helper_patches())
+        if physical:
+            extra[(rd, "_contains_unterminated_string")] = pointwise(rd._contains_unterminated_string)
+            post_modules = tuple(post_modules) + (rd,)
         extra[(sf, "namelist")] = sf.NameSelector()  # module-level singleton: fresh per symbolic run
         # the directory enumeration order is not a function of the input: fix it (sorted) so that every
         # re-execution of the symbolic run visits the files in the same order
@@ -193,21 +207,22 @@ def project(files, correlate=True, post=None, post_modules=(), file_order="sorte
             pass
 
 
-def project_concrete(files, correlate=True, **settings):
-    """same, natively (replay)"""
+def project_concrete(files, correlate=True, physical=(), **settings):
+    """same, natively (replay); files named in `physical` are written to disk and read by the real FortranReader"""
     import ford.sourceform as sf
     import ford.fortran_project as fp
     from ford.settings import ProjectSettings
 
     d = tempfile.mkdtemp(prefix="fvproj-")
     orig = sf.FortranReader
-    sf.FortranReader = lambda path, *a, **k: FakeReader(files[os.path.basename(path)])
+    sf.FortranReader = lambda path, *a, **k: (orig(path, *a, **k) if os.path.basename(path) in physical
+                                              else FakeReader(files[os.path.basename(path)]))
     real_find = fp.find_all_files
     fp.find_all_files = lambda st_: sorted(real_find(st_))
     try:
         for name in files:
             with open(os.path.join(d, name), "w") as f:
-                f.write("! replay\n")
+                f.write("\n".join(files[name]) + "\n" if name in physical else "! replay\n")
         buf = io.StringIO()
         with contextlib.redirect_stdout(buf), contextlib.redirect_stderr(buf):
             settings.setdefault("dbg", False)
